@@ -12,5 +12,8 @@ type boundedResult struct {
 }
 
 func runBounded(o *runOpts, name string) boundedResult {
+	if name == "rendered_gate" {
+		return runRenderedGate(o)
+	}
 	return runBoundedHarness(o, name)
 }
